@@ -238,4 +238,270 @@ theorem verifyOwnership_refines (crypto : Go.SigScheme) (signData : didtypes.DID
         rw [if_pos hl']
         rfl
 
+
+theorem verifyOwnership_cases (cr : Did.Crypto) (data : Bytes) (seq : Nat) (doc : Did.Doc) (vmID sig : Bytes) :
+    (∃ n, Did.verifyOwnership cr data seq doc vmID sig = .ok n) ∨
+    (∃ c, Did.verifyOwnership cr data seq doc vmID sig = .err c ∧
+      (c = "did/8:vm-not-found" ∨ c = "did/15:key-type" ∨ c = "did/10:pubkey" ∨ c = "did/9:sig")) := by
+  unfold Did.verifyOwnership
+  cases Did.vmFrom doc doc.auths vmID with
+  | none => exact Or.inr ⟨_, rfl, Or.inl rfl⟩
+  | some vm =>
+    simp only []
+    by_cases h1 : vm.type ≠ Did.es256k2019 ∧ vm.type ≠ Did.es256k2018
+    · rw [if_pos h1]; exact Or.inr ⟨_, rfl, Or.inr (Or.inl rfl)⟩
+    · rw [if_neg h1]
+      by_cases h2 : (Did.b58Decode vm.pubKeyB58).length ≠ 33
+      · rw [if_pos h2]; exact Or.inr ⟨_, rfl, Or.inr (Or.inr (Or.inl rfl))⟩
+      · rw [if_neg h2]
+        by_cases h3 : cr.verify (Did.b58Decode vm.pubKeyB58) (Did.signBytes data seq) sig = true
+        · rw [if_pos h3]; exact Or.inl ⟨_, rfl⟩
+        · rw [if_neg h3]; exact Or.inr ⟨_, rfl, Or.inr (Or.inr (Or.inr rfl))⟩
+
+/-! ## the registry: raw store and abstraction -/
+
+section registry
+variable [Go.Proto didtypes.DIDDocumentWithSeq] [Go.LawfulProto didtypes.DIDDocumentWithSeq]
+open Panacea.Refine.Aol (table table_get table_set_same Decodes decodes_set_same store_setStore)
+
+def toDWS (x : didtypes.DIDDocumentWithSeq) : Did.DocWithSeq :=
+  { doc := x.Document.map toDoc, seq := x.Sequence,
+    docBytes := match x.Document with | some d => Go.Proto.marshal d | none => [] }
+
+/-- the registry a world stands for -/
+def absD (w : World) : Did.State := table toDWS (w.store "did") [0]
+
+/-- facts about the real protobuf encoding the model states concretely -/
+structure CodecFacts : Prop where
+  nonEmpty : ∀ x : didtypes.DIDDocumentWithSeq, (Go.Proto.marshal x : Bytes) ≠ []      -- length-prefixed
+  zeroDoc : (Go.Proto.marshal (default : didtypes.DIDDocument) : Bytes) = []
+  idOnly : ∀ did : Bytes, (Go.Proto.marshal ({ Id := did } : didtypes.DIDDocument) : Bytes) = Did.marshalIdOnly did
+
+structure WFD (w : World) : Prop where
+  sorted : (w.store "did").Sorted
+  decodes : Decodes didtypes.DIDDocumentWithSeq (w.store "did") [0]
+  nonEmpty : ∀ k v, (w.store "did").get ([0] ++ k) = some v → v ≠ []
+  noNil : ∀ k v x d, (w.store "did").get ([0] ++ k) = some v →
+    (Go.Proto.unmarshal v : Option didtypes.DIDDocumentWithSeq) = some x → x.Document = some d → NoNil d
+
+theorem set_run' (s : Store) (k v : Bytes) (w : World) (h : s.pfx ++ k ≠ []) :
+    s.set k v w = P.ok (w.setStore s.name ((w.store s.name).set (s.pfx ++ k) v)) := by
+  unfold Store.set; rw [if_neg h]
+
+theorem getD_marshal' {G : Type} [Inhabited G] [Go.Proto G] [Go.LawfulProto G] (x : G) :
+    ((Go.Proto.unmarshal (Go.Proto.marshal x) : Option G).getD default) = x := by
+  rw [Go.LawfulProto.unmarshal_marshal]; rfl
+
+theorem optc {α} (x : Option α) : x = none ∨ ∃ a, x = some a := by cases x <;> simp
+
+/-- what `GetDIDDocument` returns -/
+def readD (w : World) (did : Bytes) : didtypes.DIDDocumentWithSeq :=
+  match (w.store "did").get ([0] ++ did) with
+  | some v => ((Go.Proto.unmarshal v : Option didtypes.DIDDocumentWithSeq).getD default)
+  | none => default
+
+theorem getDoc_run (w : World) (did : Bytes) (hwf : WFD w) :
+    didkeeper.Keeper.GetDIDDocument did w = P.ok (readD w did, w) := by
+  unfold didkeeper.Keeper.GetDIDDocument readD
+  simp only [Go.Store.get, Go.prefixStore, Go.kvStore, didtypes.DIDKeyPrefix, List.nil_append]
+  rcases optc ((w.store "did").get ([0] ++ did)) with hg | ⟨v, hg⟩
+  · simp only [hg]; rfl
+  · simp only [hg]
+    have hne := hwf.nonEmpty did v hg
+    have hdec := hwf.decodes did v hg
+    simp only [Option.getD_some]
+    have : v.isEmpty = false := by cases v with | nil => exact absurd rfl hne | cons a t => rfl
+    simp only [this, Bool.false_eq_true, if_false, Go.mustUnmarshal]
+    rcases optc (Go.Proto.unmarshal v : Option didtypes.DIDDocumentWithSeq) with hu | ⟨x, hu⟩
+    · rw [hu] at hdec; cases hdec
+    · simp only [hu]; rfl
+
+theorem read_abs (w : World) (did : Bytes) : toDWS (readD w did) = Did.getDoc (absD w) did := by
+  unfold readD Did.getDoc absD
+  rw [table_get]
+  cases (w.store "did").get ([0] ++ did) <;> rfl
+
+theorem read_noNil (w : World) (did : Bytes) (hwf : WFD w) (d : didtypes.DIDDocument)
+    (h : (readD w did).Document = some d) : NoNil d := by
+  unfold readD at h
+  cases hg : (w.store "did").get ([0] ++ did) with
+  | none => rw [hg] at h; cases h
+  | some v =>
+    rw [hg] at h
+    have hdec := hwf.decodes did v hg
+    cases hu : (Go.Proto.unmarshal v : Option didtypes.DIDDocumentWithSeq) with
+    | none => rw [hu] at hdec; cases hdec
+    | some x =>
+      simp only [hu, Option.getD_some] at h
+      exact hwf.noNil did v x d hg hu h
+
+theorem setDoc_run (w : World) (did : Bytes) (x : didtypes.DIDDocumentWithSeq) :
+    didkeeper.Keeper.SetDIDDocument did x w =
+      P.ok (w.setStore "did" ((w.store "did").set ([0] ++ did) (Go.Proto.marshal x))) := by
+  unfold didkeeper.Keeper.SetDIDDocument
+  simp only []
+  rw [set_run' _ _ _ _ (by simp [Go.prefixStore, Go.kvStore, didtypes.DIDKeyPrefix])]
+  rfl
+
+theorem abs_set (w : World) (hwf : WFD w) (did : Bytes) (x : didtypes.DIDDocumentWithSeq) :
+    absD (w.setStore "did" ((w.store "did").set ([0] ++ did) (Go.Proto.marshal x))) = (absD w).set did (toDWS x) := by
+  unfold absD
+  rw [store_setStore, table_set_same _ _ hwf.sorted, getD_marshal']
+
+theorem wfd_set (w : World) (hwf : WFD w) (cf : CodecFacts) (did : Bytes) (x : didtypes.DIDDocumentWithSeq)
+    (hx : ∀ d, x.Document = some d → NoNil d) :
+    WFD (w.setStore "did" ((w.store "did").set ([0] ++ did) (Go.Proto.marshal x))) := by
+  refine ⟨?_, ?_, ?_, ?_⟩
+  · rw [store_setStore]; exact Map.sorted_set _ _ _ hwf.sorted
+  · rw [store_setStore]; exact decodes_set_same _ _ _ _ _ hwf.decodes
+  · intro k v hv
+    rw [store_setStore] at hv
+    by_cases hk : ([0] : Bytes) ++ k = [0] ++ did
+    · rw [hk, Map.get_set_eq] at hv; cases hv; exact cf.nonEmpty x
+    · rw [Map.get_set_ne _ _ _ _ hk] at hv; exact hwf.nonEmpty k v hv
+  · intro k v y d hv hu hd
+    rw [store_setStore] at hv
+    by_cases hk : ([0] : Bytes) ++ k = [0] ++ did
+    · rw [hk, Map.get_set_eq] at hv; cases hv
+      rw [Go.LawfulProto.unmarshal_marshal] at hu; cases hu
+      exact hx d hd
+    · rw [Map.get_set_ne _ _ _ _ hk] at hv; exact hwf.noNil k v y d hv hu hd
+
+/-! ## the message server -/
+
+/-- **Simulation** (as for x/aol): accepted ↔ accepted and the new world stands for the model's new registry and is
+well-formed again; rejected ↔ rejected with the same registered error, world unchanged; panic ↔ panic. -/
+def SimD {ρ : Type} (w : World) (g : P (Option ρ × Go.Err × World)) (m : Outcome Did.State) : Prop :=
+  match m with
+  | .ok s' => ∃ v w', g = P.ok (some v, none, w') ∧ absD w' = s' ∧ WFD w'
+  | .err c => g = P.ok (none, oerr c, w)
+  | .panic _ => ∃ s, g = P.panic s
+
+theorem emptyWS_run (x : didtypes.DIDDocumentWithSeq) :
+    didtypes.DIDDocumentWithSeq.Empty x = P.ok (toDWS x).isEmpty := by
+  unfold didtypes.DIDDocumentWithSeq.Empty Did.DocWithSeq.isEmpty toDWS
+  obtain ⟨doc, seq⟩ := x
+  cases doc with
+  | none => rfl
+  | some d =>
+    simp only [Option.isNone_some, Bool.not_false, if_true, deref_some, P.ok_bind, didtypes.DIDDocument.Empty,
+      didtypes.EmptyDID, bind_pure_comp, P.map_ok, P.pure_eq, Option.map_some]
+    rfl
+
+theorem deactivatedWS_run (x : didtypes.DIDDocumentWithSeq) (d : didtypes.DIDDocument) (h : x.Document = some d) :
+    didtypes.DIDDocumentWithSeq.Deactivated x = P.ok ((toDoc d).empty && decide (x.Sequence ≠ 0)) := by
+  unfold didtypes.DIDDocumentWithSeq.Deactivated
+  obtain ⟨doc, seq⟩ := x
+  simp only at h
+  subst h
+  simp only [deref_some, P.ok_bind, didtypes.DIDDocument.Empty, didtypes.EmptyDID, bind_pure_comp, P.map_ok, P.pure_eq]
+  rfl
+
+theorem isEmpty_some_doc {x : didtypes.DIDDocumentWithSeq} (h : (toDWS x).isEmpty = false) :
+    ∃ d, x.Document = some d := by
+  obtain ⟨doc, seq⟩ := x
+  cases doc with
+  | none => simp [toDWS, Did.DocWithSeq.isEmpty] at h
+  | some d => exact ⟨d, rfl⟩
+
+theorem createDID_refines (crypto : Go.SigScheme) (cf : CodecFacts) (w : World) (hwf : WFD w)
+    (m : didtypes.MsgCreateDIDRequest) (d : didtypes.DIDDocument) (hdoc : m.Document = some d) (hn : NoNil d) :
+    SimD w (didkeeper.msgServer.CreateDID crypto (some m) w)
+      (Did.handle (toCrypto crypto) (absD w) (toCreate m (Go.Proto.marshal d))) := by
+  unfold didkeeper.msgServer.CreateDID Did.handle toCreate
+  simp only [deref_some, P.ok_bind, getDoc_run w _ hwf, emptyWS_run, read_abs, hdoc, Option.map_some]
+  rcases Bool.eq_false_or_eq_true ((Did.getDoc (absD w) m.Did).isEmpty) with he | he
+  · -- nothing stored: verify the proof against the submitted document, store it with sequence 0
+    simp only [he, Bool.not_true, Bool.false_eq_true, if_false, verifyOwnership_refines crypto d 0 d _ _ hn.1, P.ok_bind,
+      Outcome.ok_bind]
+    rcases verifyOwnership_cases (toCrypto crypto) (Go.Proto.marshal d) 0 (toDoc d) m.VerificationMethodId m.Signature
+      with ⟨n, hv⟩ | ⟨c, hv, hc⟩
+    · simp only [hv, ownRes, Option.isNone_none, Bool.not_true, Bool.false_eq_true, if_false, didtypes.NewDIDDocumentWithSeq,
+        P.pure_eq, P.ok_bind, setDoc_run, Outcome.ok_bind, SimD]
+      refine ⟨default, _, rfl, ?_, ?_⟩
+      · rw [abs_set w hwf]; rfl
+      · exact wfd_set w hwf cf _ _ (by intro d' hd'; simp only at hd'; cases hd'; exact hn)
+    · simp only [hv, ownRes, Outcome.err_bind, SimD]
+      rcases hc with rfl | rfl | rfl | rfl <;> rfl
+  · -- something is stored under the DID: a live document or a tombstone
+    obtain ⟨sd, hsd⟩ := isEmpty_some_doc (x := readD w m.Did) (by rw [read_abs]; exact he)
+    have hdead := deactivatedWS_run (readD w m.Did) sd hsd
+    have hm : (Did.getDoc (absD w) m.Did).deactivated = .ok ((toDoc sd).empty && decide ((readD w m.Did).Sequence ≠ 0)) := by
+      rw [← read_abs]; unfold Did.DocWithSeq.deactivated toDWS; simp only [hsd, Option.map_some]
+    simp only [he, Bool.not_false, if_true, hdead, P.ok_bind, hm, Outcome.ok_bind]
+    rcases Bool.eq_false_or_eq_true ((toDoc sd).empty && decide ((readD w m.Did).Sequence ≠ 0)) with hb | hb <;>
+      simp only [hb, if_true, Bool.false_eq_true, if_false, SimD] <;> rfl
+
+theorem updateDID_refines (crypto : Go.SigScheme) (cf : CodecFacts) (w : World) (hwf : WFD w)
+    (m : didtypes.MsgUpdateDIDRequest) (d : didtypes.DIDDocument) (hdoc : m.Document = some d) (hn : NoNil d) :
+    SimD w (didkeeper.msgServer.UpdateDID crypto (some m) w)
+      (Did.handle (toCrypto crypto) (absD w) (toUpdate m (Go.Proto.marshal d))) := by
+  unfold didkeeper.msgServer.UpdateDID Did.handle toUpdate
+  simp only [deref_some, P.ok_bind, getDoc_run w _ hwf, emptyWS_run, read_abs, hdoc, Option.map_some]
+  rcases Bool.eq_false_or_eq_true ((Did.getDoc (absD w) m.Did).isEmpty) with he | he
+  · simp only [he, if_true, SimD]; rfl
+  · obtain ⟨sd, hsd⟩ := isEmpty_some_doc (x := readD w m.Did) (by rw [read_abs]; exact he)
+    have hdead := deactivatedWS_run (readD w m.Did) sd hsd
+    have hm : (Did.getDoc (absD w) m.Did).deactivated = .ok ((toDoc sd).empty && decide ((readD w m.Did).Sequence ≠ 0)) := by
+      rw [← read_abs]; unfold Did.DocWithSeq.deactivated toDWS; simp only [hsd, Option.map_some]
+    have hstored : (Did.getDoc (absD w) m.Did).doc = some (toDoc sd) := by
+      rw [← read_abs]; unfold toDWS; simp only [hsd, Option.map_some]
+    have hseq : (Did.getDoc (absD w) m.Did).seq = (readD w m.Did).Sequence := by rw [← read_abs]; rfl
+    simp only [he, Bool.false_eq_true, if_false, hdead, P.ok_bind, hm, Outcome.ok_bind]
+    rcases Bool.eq_false_or_eq_true ((toDoc sd).empty && decide ((readD w m.Did).Sequence ≠ 0)) with hb | hb
+    · simp only [hb, if_true, SimD]; rfl
+    · simp only [hb, Bool.false_eq_true, if_false, hstored, hseq, hsd,
+        verifyOwnership_refines crypto d _ sd _ _ (read_noNil w m.Did hwf sd hsd).1, P.ok_bind]
+      rcases verifyOwnership_cases (toCrypto crypto) (Go.Proto.marshal d) (readD w m.Did).Sequence (toDoc sd)
+        m.VerificationMethodId m.Signature with ⟨n, hv⟩ | ⟨c, hv, hc⟩
+      · simp only [hv, ownRes, Option.isNone_none, Bool.not_true, Bool.false_eq_true, if_false,
+          didtypes.NewDIDDocumentWithSeq, P.pure_eq, P.ok_bind, setDoc_run, Outcome.ok_bind, SimD]
+        refine ⟨default, _, rfl, ?_, ?_⟩
+        · rw [abs_set w hwf]; rfl
+        · exact wfd_set w hwf cf _ _ (by intro d' hd'; simp only at hd'; cases hd'; exact hn)
+      · simp only [hv, ownRes, Outcome.err_bind, SimD]
+        rcases hc with rfl | rfl | rfl | rfl <;> rfl
+
+theorem toDoc_default : toDoc (default : didtypes.DIDDocument) = Did.emptyDoc := rfl
+
+theorem noNil_default : NoNil (default : didtypes.DIDDocument) := by
+  constructor
+  · intro x hx; exact absurd hx (List.not_mem_nil)
+  · intro x hx; exact absurd hx (List.not_mem_nil)
+
+theorem deactivateDID_refines (crypto : Go.SigScheme) (cf : CodecFacts) (w : World) (hwf : WFD w)
+    (m : didtypes.MsgDeactivateDIDRequest) :
+    SimD w (didkeeper.msgServer.DeactivateDID crypto (some m) w)
+      (Did.handle (toCrypto crypto) (absD w) (toDeactivate m)) := by
+  unfold didkeeper.msgServer.DeactivateDID Did.handle toDeactivate
+  simp only [deref_some, P.ok_bind, getDoc_run w _ hwf, emptyWS_run, read_abs]
+  rcases Bool.eq_false_or_eq_true ((Did.getDoc (absD w) m.Did).isEmpty) with he | he
+  · simp only [he, if_true, SimD]; rfl
+  · obtain ⟨sd, hsd⟩ := isEmpty_some_doc (x := readD w m.Did) (by rw [read_abs]; exact he)
+    have hdead := deactivatedWS_run (readD w m.Did) sd hsd
+    have hm : (Did.getDoc (absD w) m.Did).deactivated = .ok ((toDoc sd).empty && decide ((readD w m.Did).Sequence ≠ 0)) := by
+      rw [← read_abs]; unfold Did.DocWithSeq.deactivated toDWS; simp only [hsd, Option.map_some]
+    have hstored : (Did.getDoc (absD w) m.Did).doc = some (toDoc sd) := by
+      rw [← read_abs]; unfold toDWS; simp only [hsd, Option.map_some]
+    have hseq : (Did.getDoc (absD w) m.Did).seq = (readD w m.Did).Sequence := by rw [← read_abs]; rfl
+    simp only [he, Bool.false_eq_true, if_false, hdead, P.ok_bind, hm, Outcome.ok_bind]
+    rcases Bool.eq_false_or_eq_true ((toDoc sd).empty && decide ((readD w m.Did).Sequence ≠ 0)) with hb | hb
+    · simp only [hb, if_true, SimD]; rfl
+    · simp only [hb, Bool.false_eq_true, if_false, hstored, hseq, hsd,
+        verifyOwnership_refines crypto _ _ sd _ _ (read_noNil w m.Did hwf sd hsd).1, P.ok_bind, cf.idOnly]
+      rcases verifyOwnership_cases (toCrypto crypto) (Did.marshalIdOnly m.Did) (readD w m.Did).Sequence (toDoc sd)
+        m.VerificationMethodId m.Signature with ⟨n, hv⟩ | ⟨c, hv, hc⟩
+      · simp only [hv, ownRes, Option.isNone_none, Bool.not_true, Bool.false_eq_true, if_false,
+          didtypes.DIDDocumentWithSeq.Deactivate, didtypes.NewDIDDocumentWithSeq, P.pure_eq, P.ok_bind, setDoc_run,
+          Outcome.ok_bind, SimD]
+        refine ⟨default, _, rfl, ?_, ?_⟩
+        · rw [abs_set w hwf]
+          unfold toDWS
+          simp only [Option.map_some, toDoc_default, cf.zeroDoc]
+        · exact wfd_set w hwf cf _ _ (by intro d' hd'; simp only at hd'; cases hd'; exact noNil_default)
+      · simp only [hv, ownRes, Outcome.err_bind, SimD]
+        rcases hc with rfl | rfl | rfl | rfl <;> rfl
+
+end registry
+
 end Panacea.Refine.DidKeeper
